@@ -85,18 +85,21 @@ class MPLSVPN(NLRI):
             else:
                 nlri_dict['label'] = [MPLSVPN.WITHDARW_LABEL]
 
-            nlri_dict['rd'] = MPLSVPN.parse_rd(value[4:12])
-            prefix = value[12:prefix_byte_len + 1]
+            # the route distinguisher and the prefix follow the label stack, which may hold several labels
+            label_byte_len = 3 * len(nlri_dict['label'])
+            label_rd_bit_len = (label_byte_len + 8) * 8
+            nlri_dict['rd'] = MPLSVPN.parse_rd(value[label_byte_len + 1:label_byte_len + 9])
+            prefix = value[label_byte_len + 9:prefix_byte_len + 1]
             if cls.AFI == afn.AFNUM_INET and cls.SAFI == safn.SAFNUM_LAB_VPNUNICAST:
                 if len(prefix) < 4:
                     prefix += b'\x00' * (4 - len(prefix))
                 nlri_dict['prefix'] = str(netaddr.IPAddress(struct.unpack('!I', prefix)[0])) +\
-                    '/%s' % (prefix_bit_len - 88)
+                    '/%s' % (prefix_bit_len - label_rd_bit_len)
             elif cls.AFI == afn.AFNUM_INET6 and cls.SAFI == safn.SAFNUM_LAB_VPNUNICAST:
                 if len(prefix) < 16:
                     prefix += b'\x00' * (16 - len(prefix))
                 nlri_dict['prefix'] = str(netaddr.IPAddress(int(binascii.b2a_hex(prefix), 16), 6)) +\
-                    '/%s' % (prefix_bit_len - 88)
+                    '/%s' % (prefix_bit_len - label_rd_bit_len)
             value = value[prefix_byte_len + 1:]
             nlri_list.append(nlri_dict)
         return nlri_list
